@@ -179,6 +179,34 @@ def worker(ci: int, thorough: bool) -> Part:
                 part.sample([name, v])
         for sig, detail in viols:
             part.viol(sig, detail, [name, v])
+    # the decimal-string form of a number (what a state passed on as text looks like): refused, or encoded exactly as the number
+    lo, hi = cls.value_min, cls.value_max
+    ints = []
+    for b in (lo, hi):
+        if isinstance(b, (int, float)) and math.isfinite(b):
+            b = int(b)
+            ints += [b, b + 1, b - 1, b // 2 + 1]
+    ints += [0, 1, -1, 7, 2**53 + 1, -(2**53) - 1, 2**60 + 100, 2**63 - 1, -(2**63)]
+    for v in sorted(set(ints)):
+        part.evaluations += 1
+        try:
+            as_text = cls.to_knx(str(v))
+        except ConversionError:
+            part.outcomes["string-form-refused"] += 1
+            continue
+        except Exception as exc:  # noqa: BLE001
+            part.viol(exc_sig("encode-escape:string-form", exc), f"{name}.to_knx({str(v)!r}) raised {exc!r}", [name, str(v)])
+            continue
+        try:
+            as_number: Any = cls.to_knx(v)
+        except ConversionError:
+            as_number = None
+        part.nontrivial += 1
+        part.outcomes["string-form-accepted"] += 1
+        if as_number is None:
+            part.viol(f"string-form-accepted-where-number-refused:{name}", f"{name}.to_knx({str(v)!r}) -> {as_text!r} although to_knx({v}) is refused (declared range {lo}..{hi})", [name, str(v)])
+        elif as_text != as_number:
+            part.viol(f"string-form-encodes-differently:{name}", f"{name}.to_knx({str(v)!r}) -> {as_text!r}, to_knx({v}) -> {as_number!r}", [name, str(v)])
     return part
 
 
@@ -200,4 +228,7 @@ def run(ctx: Ctx) -> None:
 
 def replay(case: Any) -> list[tuple[str, str]]:
     cls = next(c for c in all_dpt_classes() if c.__name__ == case[0])
+    if isinstance(case[1], str):
+        p = worker(classes().index(cls), False)
+        return [(sg, v[1]) for sg, v in p.viols.items() if "string-form" in sg]
     return check_one(cls, case[1])[1]
